@@ -70,7 +70,8 @@ func Harness_C12_readMethods() {
 	status := c12Status()
 	garbage := vChoice("garbage-body", 2) == 1
 	truncated := vChoice("body-read-fails", 2) == 1 // the connection drops while the body is read
-	which := vChoice("method", 3)
+	which := vChoice("method", 5)
+	badRoot := which == 3 && vChoice("root-not-base64", 2) == 1
 	h1, h2 := vBytes("hash1", 32), vBytes("hash2", 32)
 	var sentBody []byte
 	srv.respond = func(req *http.Request) (*http.Response, error) {
@@ -81,6 +82,14 @@ func Harness_C12_readMethods() {
 			sentBody = vJSONEncode(ct.GetProofByHashResponse{LeafIndex: 5, AuditPath: [][]byte{h1}})
 		case 2:
 			sentBody = vJSONEncode(ct.GetEntriesResponse{Entries: []ct.LeafEntry{{LeafInput: h1, ExtraData: h2}}})
+		case 3:
+			second := "BAU=" // 04 05
+			if badRoot {
+				second = "!!"
+			}
+			sentBody = vJSONEncode(ct.GetRootsResponse{Certificates: []string{"AQID", second}})
+		case 4:
+			sentBody = vJSONEncode(ct.GetEntryAndProofResponse{LeafInput: h1, ExtraData: h2, AuditPath: [][]byte{h2, h1}})
 		}
 		if garbage {
 			sentBody = []byte("<html>")
@@ -111,8 +120,18 @@ func Harness_C12_readMethods() {
 		r, err = c.GetRawEntries(context.Background(), 0, 0)
 		okShape = r != nil && len(r.Entries) == 1 && bytes.Equal(r.Entries[0].LeafInput, h1) && bytes.Equal(r.Entries[0].ExtraData, h2)
 		vAssert(err == nil || r == nil, "no partial result with an error")
+	case 3:
+		var roots []ct.ASN1Cert
+		roots, err = c.GetAcceptedRoots(context.Background())
+		okShape = len(roots) == 2 && bytes.Equal(roots[0].Data, []byte{1, 2, 3}) && bytes.Equal(roots[1].Data, []byte{4, 5})
+		vAssert(err == nil || roots == nil, "no partial result with an error")
+	case 4:
+		var r *ct.GetEntryAndProofResponse
+		r, err = c.GetEntryAndProof(context.Background(), 3, 9)
+		okShape = r != nil && bytes.Equal(r.LeafInput, h1) && bytes.Equal(r.ExtraData, h2) && len(r.AuditPath) == 2 && bytes.Equal(r.AuditPath[0], h2) && bytes.Equal(r.AuditPath[1], h1)
+		vAssert(err == nil || r == nil, "no partial result with an error")
 	}
-	if status == 200 && !garbage && !truncated {
+	if status == 200 && !garbage && !truncated && !badRoot {
 		vAssert(err == nil && okShape, "well-formed 200 response returned unchanged")
 		vReach("ok")
 		return
